@@ -45,14 +45,14 @@ fn ints() -> Vec<V> {
     [0i16, 1, -1, 2, 7, -7, 255, 256, 32767, -32767, -32768, 3].iter().map(|n| V::Int(*n)).collect()
 }
 fn sngs() -> Vec<V> {
-    [0.0f32, 0.5, -0.5, 1.5, -2.5, 2.0, 16777216.0, 32767.5, 32768.0, -32768.5, 3.4e38, 1e-38, 3.0]
+    [0.0f32, 0.5, -0.5, 1.5, -2.5, 2.0, 16777216.0, 32767.5, 32768.0, -32768.5, 3.4e38, 1e-38, 3.0, f32::INFINITY, f32::NEG_INFINITY]
         .iter()
         .map(|n| V::Sng(*n))
         .collect()
 }
 fn dbls() -> Vec<V> {
     // (the last four sit next to a whole number by less than Single precision resolves)
-    [0.0f64, 0.5, -0.5, 1.5, -2.5, 2.0, 16777216.0, 32767.5, 32768.0, -32768.5, 3.4e38, 1e-38, 1e300, 0.1, 3.0, 2.99999999, 99.9999999, 32767.9999, -32768.00001]
+    [0.0f64, 0.5, -0.5, 1.5, -2.5, 2.0, 16777216.0, 32767.5, 32768.0, -32768.5, 3.4e38, 1e-38, 1e300, 0.1, 3.0, 2.99999999, 99.9999999, 32767.9999, -32768.00001, f64::INFINITY]
         .iter()
         .map(|n| V::Dbl(*n))
         .collect()
@@ -80,6 +80,8 @@ pub fn src(v: &V) -> String {
                 format!("{}%", n)
             }
         }
+        V::Sng(n) if n.is_infinite() => (if *n > 0.0 { "(3E38!*10%)" } else { "(-3E38!*10%)" }).to_string(),
+        V::Dbl(n) if n.is_infinite() => (if *n > 0.0 { "(1D308#*10%)" } else { "(-1D308#*10%)" }).to_string(),
         V::Sng(n) => {
             if *n < 0.0 {
                 format!("(-{:E}!)", -n).replace("E", "E").replace("!)", "!)")
@@ -854,7 +856,7 @@ impl Check for C02 {
     fn meta(&self, tier: Tier) -> Meta {
         Meta {
             bound: format!(
-                "(1) 18 binary operators x all ordered pairs of 48 boundary values (12 Integer, 13 Single, 19 Double incl. four within Single resolution of a whole number, 4 String) and unary -, +, NOT, through Operation::* (result variant compared exactly) and through PRINT with two type probes; (2) every ordered pair of the 20 operators (18 binary, unary -, NOT) in both tree shapes over all operand triples from {{7,2,3,0,-1,5}}, rendered with minimal and with full parentheses{}; (3) every literal spelling of length <={} over {{0 1 9 3 . E D + - ! # %}} that the manual's rules classify, plus radix literals and structured long spellings (1-9 mantissa digits x point position x 14 exponent spellings x suffix), observed in Line::ast(); (4) 14 numeric functions x the 48 values; (5) assignment of the 48 values to A%, A!, A#, A$, A, B%(2), C#(1,1) with read-back type probes",
+                "(1) 18 binary operators x all ordered pairs of 51 boundary values (12 Integer, 15 Single, 20 Double incl. four within Single resolution of a whole number and the infinities, 4 String) and unary -, +, NOT, through Operation::* (result variant compared exactly) and through PRINT with two type probes; (2) every ordered pair of the 20 operators (18 binary, unary -, NOT) in both tree shapes over all operand triples from {{7,2,3,0,-1,5}}, rendered with minimal and with full parentheses{}; (3) every literal spelling of length <={} over {{0 1 9 3 . E D + - ! # %}} that the manual's rules classify, plus radix literals and structured long spellings (1-9 mantissa digits x point position x 14 exponent spellings x suffix), observed in Line::ast(); (4) 14 numeric functions x the 51 values; (5) assignment of the 51 values to A%, A!, A#, A$, A, B%(2), C#(1,1) with read-back type probes",
                 if tier == Tier::Thorough { ", and every operator triple of the 18 binary operators in all five tree shapes over operands {7,2,3,0,-1}" } else { ", and every operator triple of the 18 binary operators in all five tree shapes over operands {7,2,3}" },
                 tier.pick(6, 7)
             ),
